@@ -6,6 +6,7 @@
     (same scenario under different PYTHONHASHSEED, files compared). *)
 From Coq Require Import ZArith QArith List Bool Permutation.
 From Ladim Require Import Base.Num Model.Time Model.Sim Proofs.SimProofs Proofs.SimIndepProofs Proofs.SimPermProofs Proofs.SymmetryProofs.
+From Ladim Require Import Model.Setup Proofs.SimRelProofs Proofs.SetupProofs Proofs.SetupSymProofs.
 Import ListNotations.
 Open Scope Z_scope.
 
@@ -64,3 +65,33 @@ Theorem C14_run_depends_on_environment_only : forall (V C : Type) rel rel' ff ff
   forall N, cold_run V C rel ff cf tf bf du N = cold_run V C rel' ff' cf' tf' bf' du' N.
 Proof. exact cold_run_ext. Qed.
 Print Assumptions C14_run_depends_on_environment_only.
+
+(** T2 CLOSED, about whole set-ups (Model/Setup.v: clock, forcing files with frames at arbitrary times,
+    release table, output period, physics constants; the run is compiled by the component MACHINES of
+    ForcingTime.v / Release.v / Time.v): shift EVERY time of a well-formed set-up by any d seconds — start,
+    stop, reference, every frame of every forcing file, every release row.  The shifted set-up is well-formed
+    and its run equals the original run particle for particle and record for record.
+    [srel pv pv Z pv_eq r1 r2] (Proofs/SimRelProofs.v) says: neither run crashed; after the last step both hold
+    the same particles in the same order — same release row (tag), same pid, same liveness, values equal up
+    to == on the rationals (position, depth class, age, scalar) —; the same number of particles was released;
+    and the two runs wrote the same number of records, each at the same step with the same (pid, row, values). *)
+Theorem C14_closed_shift : forall s d, setup_ok s = true ->
+  setup_ok (shift_setup s d) = true /\ srel pv pv Z pv_eq (m_run s) (m_run (shift_setup s d)).
+Proof. exact shift_invariance. Qed.
+Print Assumptions C14_closed_shift.
+
+(** the machines compute the specification: for every well-formed set-up the run equals the run in which
+    particles enter at the steps of their release times (C04's schedule), feel the linear interpolation of
+    the frames (C03) with the reversal sign, and carry the latest scalar frame *)
+Theorem C14_run_refines_spec : forall s, setup_ok s = true -> srel pv pv Z pv_eq (m_run s) (sp_run s).
+Proof. exact run_refines_spec. Qed.
+Print Assumptions C14_run_refines_spec.
+
+Example C14_closed_ex :
+  setup_ok ex_setup = true /\ setup_ok (shift_setup ex_setup 777) = true /\
+  show_run (m_run (shift_setup ex_setup 777)) = show_run (m_run ex_setup) /\
+  show_run (sp_run ex_setup) = show_run (m_run ex_setup) /\
+  show_run (m_run ex_setup) =
+    [(0, [(0, 0, 5%Q, 0, 40%Q)]); (2, [(0, 0, (27 # 8)%Q, 2, 30%Q); (1, 1, 6%Q, 0, 30%Q); (2, 1, 6%Q, 0, 30%Q)]);
+     (4, [(0, 0, (21 # 8)%Q, 4, 20%Q); (1, 1, (45 # 8)%Q, 2, 20%Q); (2, 1, (45 # 8)%Q, 2, 20%Q)])].
+Proof. vm_compute. repeat split. Qed.
